@@ -19,7 +19,13 @@ NRec == Len(Rec)
 VARIABLE l
 
 Verdict(ev, i) ==
-  IF ~Supported(ev.q) \/ ~Supported(ev.printed) THEN PrintT(<<"UNSUPPORTED", i>>)
+  IF "fromast" \in DOMAIN ev THEN
+     \* a tree that no source text of the query language produces (a unit whose NAME is a word of the query language, as the
+     \* shipped definitions file has them: `in`, `to`, `%`): built from its JSON form, printed by the code, read back here
+     (IF ~Supported(ev.printed) THEN PrintT(<<"UNSUPPORTED", i>>)
+      ELSE \E p \in {ParseAll(ev.printed)} :
+             IF p.done /\ AstEq(p.e, ev.ast) /\ ev.same THEN TRUE ELSE PrintT(<<"REJECT", i, "tree built from JSON">>))
+  ELSE IF ~Supported(ev.q) \/ ~Supported(ev.printed) THEN PrintT(<<"UNSUPPORTED", i>>)
   ELSE
     \E es \in {ParseExprText(ev.q)} :
     /\ IF ~AstEq(es, ev.ast) THEN PrintT(<<"ASTDIFF", i>>) ELSE TRUE
